@@ -2,7 +2,7 @@
    crate for EVERY well-formed table; the one shape of D on which it does not — a schema that contains itself — is
    refuted for every fuel (open finding). Extraction itself is tied to the implementation by the correspondence run,
    which also evaluates the hypotheses below on every extracted table. *)
-From LN Require Import Spec.Wf Proofs.CrateP Proofs.EmitP Proofs.TotalP.
+From LN Require Import Spec.Wf Proofs.CrateP Proofs.EmitP Proofs.TotalP Proofs.FuelP.
 Local Open Scope nat_scope.
 
 (* no Err (= no panic), no fuel exhaustion (= no runaway recursion): a crate comes out *)
@@ -31,6 +31,14 @@ Print Assumptions C01_recursive_refuted.
 Theorem C01_recursive_not_finite : forall d, fin_d node_hir d (TModel (lit "Node")) = false.
 Proof. exact node_not_finite. Qed.
 Print Assumptions C01_recursive_not_finite.
+
+(* the fuel of the model is not a parameter of the answer: once the whole pipeline (extraction, pruning, every file)
+   answers at some fuel, every larger fuel gives the same crate. The driver's fuel is therefore irrelevant to what the
+   implementation is compared with, and running out of fuel is the only outcome more fuel can change. *)
+Theorem C01_fuel_irrelevant : forall sp cfg tp f g files, f <= g ->
+  generate f sp cfg tp = Ok files -> generate g sp cfg tp = Ok files.
+Proof. exact generate_fuel_irrelevant. Qed.
+Print Assumptions C01_fuel_irrelevant.
 
 (* the hypotheses are met by what extraction yields for an ordinary document, and the whole pipeline then succeeds *)
 Theorem C01_nonvacuous :
